@@ -100,7 +100,9 @@ def _cmp(ctx, op, a, b, what, exact=False, sens=None, **f):
     sc = max(float(np.max(np.abs(a))), 1e-300)
     d = float(np.max(np.abs(a - b))) / sc
     if d > TOL and sens is not None:
-        ds = max(float(np.max(np.abs(a - np.asarray(p, dtype=float)))) / sc for p in sens())
+        # (24 perturbed re-runs: a run that flips a branch under some last-bit perturbations does so for a fraction of them only -
+        # a pqnr case flipped for 5 of 40)
+        ds = max(float(np.max(np.abs(a - np.asarray(p, dtype=float)))) / sc for p in sens(24))
         if ds >= 0.05 * d:
             ctx.tag("rounding-unstable-run(not judged)")
             return
@@ -271,9 +273,9 @@ def run_case(case, ctx):
                 Sc = gen.mk_sptensor(ttb, Xc, gen.stored_order(rng, int(np.count_nonzero(Xc)), "shuffled"))
                 b = _quiet(ttb.cp_apr, Sc, R, init=M0.copy(), printitn=0, **kw)
 
-                def sens():
+                def sens(nper=3):
                     out = []
-                    for k in range(3):
+                    for k in range(nper):
                         Mp = M0.copy()
                         prng = np.random.default_rng(case["cseed"] + 7919 * (k + 1))
                         for i_, fm in enumerate(Mp.factor_matrices):
@@ -361,9 +363,9 @@ def run_case(case, ctx):
             M0g = ttb.ktensor([rng.random((s_, R)) for s_ in shape])
             base = _quiet(ttb.gcp_opt, T, R, Objectives.GAUSSIAN, LBFGSB(maxiter=4), init=M0g.copy(), printitn=0)
 
-            def sens():
+            def sens(nper=3):
                 out = []
-                for k in range(3):
+                for k in range(nper):
                     Mp = M0g.copy()
                     prng = np.random.default_rng(case["cseed"] + 7919 * (k + 1))
                     for i_, fm in enumerate(Mp.factor_matrices):
